@@ -23,7 +23,10 @@ func forbiddenDomainByte(b byte) bool {
 
 // verifCheckInv: the structural invariants of a URL record and the coherence of the getters
 // (property C04), stated over the public getters plus the record's null/empty distinctions.
-func verifCheckInv(u *Url) {
+func verifCheckInv(u *Url) { verifCheckInvT(u, defaultSchemeTable) }
+
+// verifCheckInvT: the invariants with special-ness and default ports as configured in table t.
+func verifCheckInvT(u *Url, t []schemeEntry) {
 	sc := u.Scheme()
 	if len(sc) == 0 || !isLowerAlpha(sc[0]) {
 		vnd.Fail("scheme does not start with a lowercase ASCII letter")
@@ -33,7 +36,7 @@ func verifCheckInv(u *Url) {
 			vnd.Fail("scheme contains a character outside alnum + - . (lowercase)")
 		}
 	}
-	special := specIsSpecial(sc)
+	dport, special := tableLookup(t, sc)
 	hasHost := u.host != nil
 	opaque := u.OpaquePath()
 	pn := u.Pathname()
@@ -72,7 +75,7 @@ func verifCheckInv(u *Url) {
 		if v > 65535 {
 			vnd.Fail("port above 65535")
 		}
-		if special && specDefaultPort(sc) == v && sc != "file" {
+		if special && dport != "" && decimalValue(dport) == v {
 			vnd.Fail("the scheme's default port is serialized")
 		}
 	}
@@ -236,13 +239,49 @@ func VerifC04InvLists() {
 	}
 }
 
+// VerifC04InvCustomSchemes: a parser with a configured special-scheme table (gopher:70 added, ftp
+// removed, http on 8080): the invariants (default-port elision, special => host ...) follow the configured table.
+func VerifC04InvCustomSchemes() {
+	m := map[string]string{}
+	for _, e := range customSchemeTable {
+		m[e.scheme] = e.port
+	}
+	p := NewParser(WithSpecialSchemes(m))
+	schemes := []string{"gopher", "ftp", "http", "https", "a"}
+	tails := []string{"h/", "h:70/", "h:8080/x", "h:21", "h:0/", "u@h:80/"}
+	u, err := p.Parse(schemes[vnd.Pick(len(schemes))] + "://" + tails[vnd.Pick(len(tails))])
+	if err != nil {
+		return
+	}
+	verifCheckInvT(u, customSchemeTable)
+	for i := 0; i < 2; i++ {
+		switch vnd.Pick(5) {
+		case 0:
+			u.SetPort([]string{"70", "0070", "8080", "80", "0", "21", "7" + vnd.StrOver(1, "0189")}[vnd.Pick(7)])
+		case 1:
+			u.SetProtocol(schemes[vnd.Pick(len(schemes))])
+		case 2:
+			u.SetHost([]string{"x:70", "x:0070", "x:8080", "x", ""}[vnd.Pick(5)])
+		case 3:
+			r, rerr := u.Parse([]string{"//y:70/z", "/y", "gopher://z:70", "http://z:8080/"}[vnd.Pick(4)])
+			if rerr == nil {
+				u = r
+			}
+		case 4:
+			u.SetPort("")
+		}
+		verifCheckInvT(u, customSchemeTable)
+	}
+}
+
 func VerifC04InvOps1() { invOps(1, vnd.Param("C04.KOps1", 2, 3), len(startURLs)) }
-func VerifC04InvOps2() { invOps(2, vnd.Param("C04.KOps2", 1, 2), vnd.Param("C04.Starts2", 7, 17)) }
-func VerifC04InvOps3() { invOps(3, vnd.Param("C04.KOps3", 0, 1), vnd.Param("C04.Starts3", 4, 17)) }
+func VerifC04InvOps2() { invOps(2, vnd.Param("C04.KOps2", 1, 2), vnd.Param("C04.Starts2", 8, 18)) }
+func VerifC04InvOps3() { invOps(3, vnd.Param("C04.KOps3", 0, 1), vnd.Param("C04.Starts3", 4, 18)) }
 
 func init() {
 	verifHarnesses["VerifC04InvParse"] = VerifC04InvParse
 	verifHarnesses["VerifC04InvOps1"] = VerifC04InvOps1
+	verifHarnesses["VerifC04InvCustomSchemes"] = VerifC04InvCustomSchemes
 	verifHarnesses["VerifC04InvLists"] = VerifC04InvLists
 	verifHarnesses["VerifC04InvOps2"] = VerifC04InvOps2
 	verifHarnesses["VerifC04InvOps3"] = VerifC04InvOps3
